@@ -23,6 +23,8 @@ type C06Sc struct {
 	Steps  int           `json:"steps"`
 	// NilHandlers: no notification handlers registered (nil interface values)
 	NilHandlers bool `json:"nil_handlers,omitempty"`
+	// Swap: host replaces cpu.Memory/cpu.IO by equal-content devices before every Step (1) or copies the CPU struct too (2)
+	Swap int `json:"swap,omitempty"`
 }
 
 type c06 struct{}
@@ -133,6 +135,9 @@ func (c06) Gen(r *world.Rng, tier string, n int) interface{} {
 	sc.Regs = regs
 	sc.Halted = halted
 	sc.NilHandlers = r.Chance(1, 8)
+	if r.Chance(1, 8) {
+		sc.Swap = r.Range(1, 2)
+	}
 
 	t2 := uint16(r.Range(0x4000, 0x5fff))
 	tc := uint16(r.Range(0x6000, 0x7fff))
@@ -302,6 +307,9 @@ func (c06) Exec(sci interface{}, env *Env) *Violation {
 	depth := 0
 	for step := 0; step < sc.Steps; step++ {
 		m.Boundary()
+		if sc.Swap != 0 {
+			m.SwapDevices(sc.Swap == 2)
+		}
 		cpu := m.CPU
 		req := cpu.Interrupt
 		nPres := len(m.Presented)
@@ -386,11 +394,20 @@ func (c06) Exec(sci interface{}, env *Env) *Violation {
 		if len(match) == 0 {
 			return viol("intmodel-lockstep", "%s; %s", firstDiff, ctx())
 		}
+		if m.StaleCount() != 0 {
+			return viol("stale-device", "%d accesses went to a Memory/IO value the host had already replaced; %s", m.StaleCount(), ctx())
+		}
 		c := match[0]
 
 		// the slot after the Step
 		switch {
 		case req != nil && !c.Consumed:
+			if len(m.Presented) > nPres {
+				// the controller only presents into an EMPTY slot: the library emptied the slot of a refused
+				// request while the instruction ran, a device callback posted another request into it, and
+				// one slot cannot hold both afterwards
+				return viol("refused-stays-pending", "while a refused request was pending the slot was found empty by a device callback, which posted %s; afterwards the slot holds %s - one of the two requests is lost; %s", world.FmtRequest(m.Presented[len(m.Presented)-1]), world.FmtRequest(cpu.Interrupt), ctx())
+			}
 			if !world.SameRequest(cpu.Interrupt, req) {
 				return viol("refused-stays-pending", "slot after refusal = %s, want %s; %s", world.FmtRequest(cpu.Interrupt), world.FmtRequest(req), ctx())
 			}
